@@ -19,7 +19,7 @@ Import ListNotations.
 From Ygm Require Import Barrier RankMachine RankCount RankBarrier.
 
 Definition gmap (i : nat) (g : gev) : list ev :=
-  match g with GSend => [Send i] | GRecv => [Recv i] | GSnap _ _ => [Snap i] | GRes _ => [] end.
+  match g with GSend => [Send i] | GRecv => [Recv i] | GSnap _ _ => [Snap i] | _ => [] end.
 Definition evs (p : list (nat * gev)) : list ev := flat_map (fun x => gmap (fst x) (snd x)) p.
 Definition view (i : nat) (p : list (nat * gev)) : list gev := map snd (filter (fun x => Nat.eqb (fst x) i) p).
 
